@@ -4,7 +4,7 @@
     implementation's outcomes. *)
 From V.Lib Require Import Base MachInt.
 From V.Gen Require Import C14Consts.
-From V.C14 Require Import Model.
+From V.C14 Require Import Model SignModel.
 From Coq Require Import Permutation.
 Local Open Scope Z_scope.
 
@@ -17,7 +17,7 @@ Definition requested_balance (ops : list op) : Z :=
 (** expiry height the caller asked for: the last with_expiry_height, else target + delta *)
 Definition requested_expiry (r : req) : Z :=
   fold_left (fun e o => match o with Expiry h => h | _ => e end) (r_ops r)
-            (Z.min (r_height r + DEFAULT_TX_EXPIRY_DELTA) u32_max).
+            (if r_coinbase r then r_height r else Z.min (r_height r + DEFAULT_TX_EXPIRY_DELTA) u32_max).
 (** version the caller asked for: the last propose_version, else the branch default *)
 Definition requested_version (r : req) : ver :=
   fold_left (fun v o => match o with Propose w => w | _ => v end) (r_ops r)
@@ -71,7 +71,8 @@ Definition contents_okb (ops : list op) (b : built) : bool :=
 
 (** ---- clause 2: the net value balance is the fee the rule prescribes for the result's shape *)
 Definition fee_okb (ru : rule) (b : built) : bool :=
-  (fee_paid b =? rule_fee ru (tx_shape b))
+  negb (match ru with RZip317 => has_unknown_size (tx_shape b) | RLin _ => false end)
+  && (fee_paid b =? rule_fee ru (tx_shape b))
   && match b_fee_paid b with Some f => f =? fee_paid b | None => true end.
 
 (** ---- clause 5b: the version is valid at the target height and carries every bundle present *)
@@ -100,10 +101,10 @@ Definition header_okb (r : req) (b : built) : bool :=
 Definition needs_sapling (ops : list op) := nonempty (ss_vals ops) || nonempty (so_vals ops).
 Definition needs_orchard (r : req) (ops : list op) :=
   nonempty (os_vals ops) || nonempty (oo_vals ops) || nonempty (oc_vals ops)
-  || ((is_deferred r || r_orc r && branch_has_orchard (branch_at (r_net r) (r_height r))) && p_req (r_opad r)).
+  || (negb (r_coinbase r) && (is_deferred r || r_orc r && branch_has_orchard (branch_at (r_net r) (r_height r))) && p_req (r_opad r)).
 Definition needs_ironwood (r : req) (ops : list op) :=
   nonempty (is_vals ops) || nonempty (io_vals ops)
-  || ((is_deferred r || r_iw r && branch_has_ironwood (branch_at (r_net r) (r_height r))) && p_req (r_ipad r)).
+  || (negb (r_coinbase r) && (is_deferred r || r_iw r && branch_has_ironwood (branch_at (r_net r) (r_height r))) && p_req (r_ipad r)).
 Definition version_refusable (r : req) (ops : list op) (v : ver) : bool :=
   let br := branch_at (r_net r) (r_height r) in
   negb (valid_in_branch v br)
@@ -111,12 +112,10 @@ Definition version_refusable (r : req) (ops : list op) (v : ver) : bool :=
   || (needs_orchard r ops && negb (has_orchard v && branch_has_orchard br))
   || (needs_ironwood r ops && negb (has_ironwood v && branch_has_ironwood br)).
 
-(** ---- documented panics (explicit [expect]/[panic!] in the code), as classes of requests *)
+(** ---- the one documented panic (explicit [panic!] in sighash_v4), as a class of requests *)
 Definition panic_class (r : req) : bool :=
-  (* sapling Builder::value_balance::<ZatBalance>().expect(..): |Sapling balance| > MAX_MONEY *)
-  (negb (is_deferred r) && r_sap r && negb (in_bal (sapling_balance (r_ops r))))
   (* sighash_v4: pre-Overwinter transactions cannot be signed *)
-  || (match r_route r with Pczt | Deferred => false | _ => true end
+  (match r_route r with Pczt | Deferred => false | _ => true end
       && negb (has_overwinter (requested_version r))).
 
 (** ---- the content clause as a proposition *)
@@ -128,3 +127,49 @@ Definition pool_ok (o : option shb) (spends outs : list Z) : Prop :=
       (forall l, sb_spv s = Some l -> len l = sb_nsp s /\ padding_of spends l) /\
       (forall l, sb_outv s = Some l -> len l = sb_nout s /\ padding_of outs l)
   end.
+
+(** ---- clause 4: every transparent input carries signatures over the signature hash for its own
+    index, the value and script of the coin it spends (the scriptPubKey too from v5 on), made by
+    the key the coin pays to — for a multisig coin by m of the redeem script's keys, in the
+    script's order (what OP_CHECKMULTISIG's lock-step matching accepts). Evaluated on what the
+    harness observed each signature to verify for. *)
+Definition script_eqb (a b : script) : bool :=
+  match a, b with
+  | SPubKeyHash x, SPubKeyHash y => x =? y
+  | SScriptHash m n, SScriptHash m' n' | SRedeem m n, SRedeem m' n' => (m =? m') && (n =? n')
+  | _, _ => false
+  end.
+Definition sel_eqb (a b : sel) : bool :=
+  (s_key a =? s_key b) && (s_index a =? s_index b) && (s_value a =? s_value b)
+  && script_eqb (s_code a) (s_code b) && option_eqb script_eqb (s_spk a) (s_spk b)
+  && (s_type a =? s_type b).
+
+Fixpoint subseqb (pks ks : list Z) : bool :=
+  match ks, pks with
+  | [], _ => true
+  | _ :: _, [] => false
+  | k :: ks', p :: ps => if k =? p then subseqb ps ks' else subseqb ps ks
+  end.
+
+Definition code_of (c : coin) : script :=
+  match c_spend c with SpP2pkh k => SPubKeyHash k | SpP2sh m n => SRedeem m n | SpRaw => SRedeem 0 0 end.
+Definition sel_okb (v5 : bool) (i : Z) (c : coin) (s : sel) : bool :=
+  (s_index s =? i) && (s_value s =? c_value c) && (s_type s =? SIGHASH_ALL)
+  && script_eqb (s_code s) (code_of c)
+  && option_eqb script_eqb (s_spk s) (if v5 then Some (coin_script c) else None).
+Definition input_sels_okb (v5 : bool) (i : Z) (c : coin) (l : list sel) : bool :=
+  forallb (sel_okb v5 i c) l &&
+  match c_spend c with
+  | SpP2pkh k => match l with [s] => s_key s =? k | _ => false end
+  | SpP2sh m n => (len l =? m) && subseqb (script_keys n) (map s_key l)
+  | SpRaw => false
+  end.
+Fixpoint sels_okb_from (v5 : bool) (i : Z) (cs : list coin) (ls : list (list sel)) : bool :=
+  match cs, ls with
+  | [], [] => true
+  | c :: cs', l :: ls' => input_sels_okb v5 i c l && sels_okb_from v5 (i + 1) cs' ls'
+  | _, _ => false
+  end.
+Definition sels_okb (r : req) (b : built) (ls : list (list sel)) : bool :=
+  if is_pczt r then match ls with [] => true | _ => false end    (* nothing is signed yet *)
+  else sels_okb_from (is_v5 (b_ver b)) 0 (coins_of (r_ops r)) ls.
